@@ -23,3 +23,16 @@ Definition chk_cut (c : op * nat * nat * regs * regs * circ * res cut_result) : 
 Definition chk_cut_expand (c : nat * circ * list pauli * res (list pauli)) : bool :=
   let '(nq, data, ps, e) := c in
   res_beq plist_beq (expand nq (seq 0 nq) (new_qubits nq data) ps) e.
+
+(* clause f (cut the inserted Moves, reconstruct with exact weights): there is no Coq model of this pipeline in C03
+   (its proof content is C01 + C02); this checker only COMPARES, inside Coq and in exact rational arithmetic, the
+   values returned by reconstruct_expectation_values with the expectation values of the uncut circuit computed by
+   the harness's independent simulator: (reconstructed, uncut) pairs must agree within 1e-7, and the pipeline must
+   have produced a result at all (a refusal/crash of an in-domain request is a disagreement). *)
+From Coq Require Import QArith Qabs.
+Definition e2e_tol : Q := Qmake 1 10000000.
+Definition chk_e2e (c : res (list (Q * Q))) : bool :=
+  match c with
+  | Ok l => forallb (fun p => Qle_bool (Qabs (Qminus (fst p) (snd p))) e2e_tol) l
+  | _ => false
+  end.
